@@ -127,6 +127,7 @@ Proof.
   - apply closed_app in C as [Cm Cc]. cbn [wf] in Hwf. destruct Hwf as [Hsub Hwf]. rewrite subset_in in Hsub.
     destruct (IHp Hwf (map_env rho m) drop (closed_map_env _ _ _ Cm Hsub)) as [H1 H2].
     split; auto. apply NM_app; split; auto. apply NM_obs_c; auto.
+  - (* Ren *) cbn [wf] in Hwf. apply IHp; auto.
 Qed.
 
 Definition obs_closed (p : pt) : Prop :=
@@ -165,6 +166,7 @@ Proof.
   - cbn [pnames] in C. apply closed_app in C as [Cm Cc]. cbn [wf] in Hwf. destruct Hwf as [Hsub Hwf].
     rewrite subset_in in Hsub. cbn [obs]. apply NM_app; split; [apply NM_obs_c; auto|].
     apply IHp; auto. apply closed_map_env; auto.
+  - (* Ren *) cbn [pnames] in C. cbn [wf] in Hwf. cbn [obs]. apply IHp; auto.
 Qed.
 
 Lemma verdict_not_missing : forall p rho drop, wf p -> closed rho (pnames p) -> verdict p rho drop <> Err Missing.
